@@ -530,4 +530,12 @@ theorem sartLoop_spec (hbb : dot b b ≠ 0) (fuel k : Nat) (xs cs : List α)
 end sartspec
 
 end ring
+/-- the number of measurements only matters for a column-vector measurement -/
+theorem lsqAccept_col_only (m : Nat) (rW : Rep) (ra : ARep) (rL : Option Rep) (rb : Rep) (h : rb ≠ Rep.col) :
+    lsqAccept m rW ra rL rb = lsqAccept 0 rW ra rL rb := by
+  unfold lsqAccept
+  have : (rb == Rep.col) = false := by simpa using h
+  simp [this]
+
+
 end Cherab.Inversion
